@@ -554,3 +554,12 @@ package cputensor
 //@   loop 0 invariant imp(i < len(rows), genJ == upd(old(genJ), offOf(dims) - 1, i))
 //@   loop 0 invariant imp(i == len(rows), zeroFrom(genJ, offOf(dims) - 1, endOf(dims)) && odoK(old(genJ), genJ, genShape(initFunc), offOf(dims) - 1))
 //@   loop 0 invariant forall(j, 0, i, Filled(initFunc, rows[j], genShape(initFunc), offOf(dims), endOf(dims), upd(old(genJ), offOf(dims) - 1, j)))
+
+// which element of t a position of the broadcast result reads depends on the result only through its shape
+//@ lemma projSame: forallT(t, forallT(p, forallT(q, forallJ(J, imp(sameShape(p, q) && rank(t) <= rank(p), el(t, proj(t, p, J)) == el(t, proj(t, q, J)))))))
+
+// u is m with a dimension of size 1 inserted at d (shape and elements)
+//@ predicate isUnsqOf(u T, m T, d Int) := unsqShape(u, m, d) && forallJ(K, imp(inb(u, K), el(u, K) == el(m, del(K, d))))
+// reading an un-squeezed tensor back through broadcasting along d: position J of the result reads m at J without d
+//@ lemma unsqProjEl: forallT(u, forallT(m, forallT(o, forallI(d, forallJ(J, imp(isUnsqOf(u, m, d) && 0 <= d && d <= rank(m) && rank(o) == rank(u)
+//@                   && forall(k, 0, rank(u), k == d || dim(o, k) == dim(u, k)) && inb(o, J), el(u, proj(u, o, J)) == el(m, del(J, d))))))))
